@@ -605,16 +605,35 @@ def r56(rep: Report, ctx: Ctx) -> None:
                                or "") == "break"]
     ok = len(brk) == 1
     if ok:
-        g = enclosing(w.node, brk[0], (ast.If,))
-        ok = bool(g) and "PUMLEvent.BREAK in" in unparse(g[-1].test)
+        gs = cguards(ctx, w, brk[0])
+        is_break = ("cmp", "PUMLEvent.BREAK", "In", "self.event_types")
+        has_body = ("cmp", "self.sub_graph", "IsNot", "None")
+        ok = gs == [has_body, is_break]
         if ok:
-            outer = g[-2] if len(g) > 1 else w.node
-            blk = outer.body if g[-1] in outer.body else getattr(
-                outer, "orelse", [])
-            ok = bool(blk) and blk[-1] is g[-1]
+            # the loop block (repeat .. repeat while, or the bare body) is
+            # complete before the break line is appended
+            wcfg = ctx.cfg(w)
+            bn = wcfg.container(brk[0])
+            body_defs = [b for b in ctx.defs(w).of(unparse(
+                brk[0].func.value)) if b.kind == "assign"
+                and wcfg.has(b.stmt)]
+            loopish = [b for b in body_defs if has_body in cguards(
+                ctx, w, b.stmt)]
+            ok = bool(loopish) and bn is not None and \
+                wcfg.every_path_defines(
+                    0, bn, [wcfg.node(b.stmt) for b in loopish])
     rep.ob("R5.6", "loop node: break follows the whole loop block", ok, fi=w,
            node=brk[0] if brk else w.node,
            detail="blocks = repeat..repeat while; if BREAK: append('break')")
+    rp = [st for st in ast.walk(w.node) if isinstance(st, ast.Assign)
+          and any((_template(e) or "") == "repeat" for x in ast.walk(st.value)
+                  if isinstance(x, ast.List) for e in x.elts)]
+    ok = len(rp) == 1 and ("cmp", "PUMLEvent.LOOP", "In",
+                           "self.event_types") in cguards(ctx, w, rp[0])
+    rep.ob("R5.6", "repeat .. repeat while frames exactly the LOOP nodes",
+           ok, fi=w, node=rp[0] if rp else w.node,
+           detail="the repeat frame is built under `PUMLEvent.LOOP in "
+                  "self.event_types`")
     k = ctx.func("PUMLKillNode.write_uml_blocks")
     lines = [t for _, t in _emitted_lines(k)]
     rep.ob("R5.6", "kill node emits exactly one detach", lines == ["detach"],
